@@ -188,6 +188,30 @@ def epytextSignal : List Err → Option Err
   | [] => none
   | e :: es => if e.fatal then some e else epytextSignal es
 
+/-! ### epytext: `ParsedEpytextDocstring._slugify` (runs inside `to_node`)
+
+```python
+s = slugify(text); i = 1
+while s in self._section_slugs:
+    s = slugify(f"{text}-{i}"); i += 1
+self._section_slugs.add(s)
+```
+`cand 0 = slugify(text)`, `cand i = slugify(f"{text}-{i}")` — `slugify` itself is a parameter.
+The Python loop has no bound; `slugLoop` runs it with fuel, `none` = still looping when the fuel
+is spent.  (`PdProps.C08`: it ends within `used.length + 1` steps when the candidates are pairwise
+distinct, and never ends when they are all the same used slug.) -/
+
+abbrev Slug := List Char
+
+/-- the loop started at candidate `i`, with `fuel` iterations left -/
+def slugLoop (cand : Nat → Slug) (used : List Slug) : Nat → Nat → Option Slug
+  | 0, _ => none
+  | fuel + 1, i => if used.contains (cand i) then slugLoop cand used fuel (i + 1) else some (cand i)
+
+/-- `_slugify(text)`: the slug returned and the new `_section_slugs` -/
+def slugifyUnique (cand : Nat → Slug) (used : List Slug) (fuel : Nat) : Option (Slug × List Slug) :=
+  (slugLoop cand used fuel 0).map fun s => (s, used ++ [s])
+
 /-! ### markup.processtypes -/
 
 def bodyToNode (env : Env) : Body → NodeOut
